@@ -903,12 +903,12 @@ func Run(r *common.Run) error {
 	ft := func(v string) gField { return gField{formType, "hidden", []string{v}} }
 	corpus := []gInfo{
 		{forms: []gForm{{}}}, // empty form: makeslice panic
-		{forms: []gForm{{fields: []gField{ft("b")}}, {fields: []gField{ft("a")}}}},                                          // forms not sorted
-		{forms: []gForm{{fields: []gField{{formType, "boolean", []string{"t"}}}}}},                                           // typed FORM_TYPE
-		{forms: []gForm{{fields: []gField{{formType, "text-multi", []string{"t", "u"}}}}}},                                   // FORM_TYPE joined by newline
-		{forms: []gForm{{fields: []gField{ft("t"), {"a", "", []string{"1"}}, {"a", "", []string{"2"}}}}}},                   // duplicate var
-		{forms: []gForm{{fields: []gField{{"a", "", []string{"1"}}}}}},                                                      // no FORM_TYPE
-		{forms: []gForm{{fields: []gField{{"b", "list-multi", []string{"2", "1"}}, ft("t"), {"a", "", nil}}}}},              // fields and values out of order
+		{forms: []gForm{{fields: []gField{ft("b")}}, {fields: []gField{ft("a")}}}},                                                       // forms not sorted
+		{forms: []gForm{{fields: []gField{{formType, "boolean", []string{"t"}}}}}},                                                       // typed FORM_TYPE
+		{forms: []gForm{{fields: []gField{{formType, "text-multi", []string{"t", "u"}}}}}},                                               // FORM_TYPE joined by newline
+		{forms: []gForm{{fields: []gField{ft("t"), {"a", "", []string{"1"}}, {"a", "", []string{"2"}}}}}},                                // duplicate var
+		{forms: []gForm{{fields: []gField{{"a", "", []string{"1"}}}}}},                                                                   // no FORM_TYPE
+		{forms: []gForm{{fields: []gField{{"b", "list-multi", []string{"2", "1"}}, ft("t"), {"a", "", nil}}}}},                           // fields and values out of order
 		{ids: []gIdent{{"b", "", "", ""}, {"a", "z", "", "n"}, {"a", "b", "x", ""}, {"a", "b", "", "m"}}, feats: []string{"b", "a", ""}}, // cascade of keys
 	}
 	for _, g := range corpus {
@@ -971,9 +971,8 @@ func Run(r *common.Run) error {
 // ---- facts ------------------------------------------------------------------------------------
 
 // Facts regenerates lean/XmppModel/Generated/C20.lean from disco/info.go: the
-// fields compared by the sort of the identities and of the features, the
-// Fprintf format and arguments of an identity, and how many other sorts
-// (struct slices / string slices) AppendHash performs.
+// fields compared by the sort of the identities and of the features, and how
+// many other sorts (struct slices / string slices) AppendHash performs.
 func Facts(repo string) (string, error) {
 	fset := token.NewFileSet()
 	f, err := parser.ParseFile(fset, filepath.Join(repo, "disco", "info.go"), nil, 0)
@@ -999,9 +998,8 @@ func Facts(repo string) (string, error) {
 		}
 		return "none"
 	}
-	var idKeys, featKeys, idArgs []string
-	idFmt := ""
-	var haveId, haveFeat, haveFmt bool
+	var idKeys, featKeys []string
+	var haveId, haveFeat bool
 	structSorts, stringSorts := 0, 0
 	// keysOf lists, in order of first appearance, the struct fields compared with != or <
 	keysOf := func(lit *ast.FuncLit) []string {
@@ -1053,20 +1051,6 @@ func Facts(repo string) (string, error) {
 				}
 			case pkg.Name == "sort" && se.Sel.Name == "Strings":
 				stringSorts++
-			case pkg.Name == "fmt" && se.Sel.Name == "Fprintf" && len(call.Args) >= 2:
-				if bl, ok := call.Args[1].(*ast.BasicLit); ok && bl.Kind == token.STRING {
-					if s, err := strconv.Unquote(bl.Value); err == nil {
-						idFmt, haveFmt = s, true
-						idArgs = nil
-						for _, a := range call.Args[2:] {
-							if t, ok := a.(*ast.SelectorExpr); ok {
-								idArgs = append(idArgs, t.Sel.Name)
-							} else {
-								idArgs = append(idArgs, "?")
-							}
-						}
-					}
-				}
 			}
 			return true
 		})
@@ -1075,8 +1059,6 @@ func Facts(repo string) (string, error) {
 	sb.WriteString("-- GENERATED by `harness facts C20` from disco/info.go (Info.AppendHash); do not edit.\n")
 	sb.WriteString("namespace XmppModel.Generated.C20\n\n")
 	fmt.Fprintf(&sb, "/-- struct fields compared, in order, by the `less` function sorting `i.Identity` -/\ndef identityKeys : Option (List String) := %s\n\n", opt(haveId, strList(idKeys)))
-	fmt.Fprintf(&sb, "/-- format and arguments of the `fmt.Fprintf` that writes an identity -/\ndef identityFormat : Option String := %s\n", opt(haveFmt, strconv.Quote(idFmt)))
-	fmt.Fprintf(&sb, "def identityArgs : Option (List String) := %s\n\n", opt(haveFmt, strList(idArgs)))
 	fmt.Fprintf(&sb, "/-- struct fields compared by the sort of `i.Features` -/\ndef featureKeys : Option (List String) := %s\n\n", opt(haveFeat, strList(featKeys)))
 	fmt.Fprintf(&sb, "/-- number of other `sort.Slice`/`sort.SliceStable` calls (the fields of a form, the forms) and of `sort.Strings` calls (the values of a field) in AppendHash -/\ndef structSorts : Option Nat := %s\ndef stringSorts : Option Nat := %s\n", opt(fn != nil, strconv.Itoa(structSorts)), opt(fn != nil, strconv.Itoa(stringSorts)))
 	sb.WriteString("\nend XmppModel.Generated.C20\n")
